@@ -587,7 +587,7 @@ or a list of these
 
     if estimate_key:
         warnings.warn("key estimation", stacklevel=2)
-        _, mode, fifths = analysis.estimate_key(note_array)
+        fifths, mode = key_name_to_fifths_mode(analysis.estimate_key(note_array))
         key_sigs_by_track = {}
         global_key_sigs = [(0, fifths_mode_to_key_name(fifths, mode))]
 
